@@ -53,6 +53,8 @@ class Tr:
         self.fresh = 0
         self.tables: dict[str, list[tuple[str, str]]] = {}
         self.helpers: dict[str, tuple[str, str, str]] = {}      # name -> (param, table, default param or literal)
+        self.funcs: dict[str, ast.FunctionDef] = {n.name: n for n in tree.body if isinstance(n, ast.FunctionDef) and n.name != "check"}
+        self.uses_types = False
         for n in tree.body:
             if isinstance(n, ast.Assign) and len(n.targets) == 1 and isinstance(n.targets[0], ast.Name) and isinstance(n.value, ast.Dict):
                 if all(isinstance(k, ast.Constant) and isinstance(k.value, str) and isinstance(v, ast.Constant) and isinstance(v.value, str) and v.value
@@ -161,6 +163,8 @@ class Tr:
             key = f"{e.value.id}.{e.attr}"
             if key in env:
                 return env[key]
+            if e.attr == "name" and e.value.id in env and env[e.value.id][1] == "E":
+                return f"(name_of {env[e.value.id][0]})", "S"          # NameExpr.name (the caller has narrowed the node to a NameExpr)
             fail(e, "unknown attribute")
         if isinstance(e, ast.JoinedStr):
             parts = []
@@ -210,6 +214,20 @@ class Tr:
                 if ty not in ("LE", "LS"):
                     fail(e, "len of a non-list")
                 return f"(List.length {t})", "N"
+            if fn in ("is_bool_literal", "is_true_literal", "is_false_literal") and len(args) == 1 and not e.keywords:
+                t, ty = self.expr(args[0], env)
+                if ty != "E":
+                    fail(e, f"{fn} of a non-expression")
+                return f"({fn} {t})", "B"
+            if fn == "is_same_type" and len(args) >= 2 and not e.keywords and isinstance(args[0], ast.Call) and ast.unparse(args[0].func) == "get_mypy_type" \
+                    and len(args[0].args) == 1 and all(isinstance(a, ast.Name) for a in args[1:]):
+                t, ty = self.expr(args[0].args[0], env)
+                if ty != "E":
+                    fail(e, "type of a non-expression")
+                self.uses_types = True
+                return "(" + " || ".join(f"type_is {t} {cstr(a.id)}" for a in args[1:]) + ")", "B"
+            if fn in self.funcs and fn not in self.helpers and not e.keywords:
+                return self.inline(self.funcs[fn], [self.expr(a, env) for a in args], e)
             if fn in self.helpers and len(args) == 1 and not e.keywords:
                 k, tk = self.expr(args[0], env)
                 if tk != "S":
@@ -225,6 +243,25 @@ class Tr:
             return self.cond(e, env), "B"
         fail(e, "unrecognised expression")
 
+    def inline(self, fn: ast.FunctionDef, args: list, at) -> tuple[str, str]:
+        """a module-level helper `def f(a, b): x = ...; return <expr>` applied to translated arguments"""
+        if len(fn.args.args) != len(args) or fn.args.vararg or fn.args.kwarg or fn.args.kwonlyargs:
+            fail(at, "helper called with another arity")
+        env = {p.arg: a for p, a in zip(fn.args.args, args)}
+        body = [s for s in fn.body if not (isinstance(s, ast.Expr) and isinstance(s.value, ast.Constant))]
+        lets = []
+        for st in body[:-1]:
+            if not (isinstance(st, ast.Assign) and len(st.targets) == 1 and isinstance(st.targets[0], ast.Name)):
+                fail(st, "helper body is not assignments followed by a return")
+            t, ty = self.expr(st.value, env)
+            v = self.var(st.targets[0].id)
+            env[st.targets[0].id] = (v, ty)
+            lets.append(f"let {v} := {t} in ")
+        if not body or not isinstance(body[-1], ast.Return) or body[-1].value is None:
+            fail(fn, "helper does not end in `return <expr>`")
+        t, ty = self.expr(body[-1].value, env)
+        return "(" + "".join(lets) + t + ")", ty
+
     @staticmethod
     def table_term(rows) -> str:
         return "[" + "; ".join(f"({cstr(k)}, {cstr(v)})" for k, v in rows) + "]"
@@ -236,9 +273,10 @@ class Tr:
         if isinstance(e, ast.UnaryOp) and isinstance(e.op, ast.Not):
             return f"(negb {self.cond(e.operand, env)})"
         if isinstance(e, ast.Compare) and len(e.ops) == 1:
-            (a, ta), (b, tb) = self.expr(e.left, env), self.expr(e.comparators[0], env)
+            a, ta = self.expr(e.left, env)
             neg = isinstance(e.ops[0], ast.NotEq)
             if isinstance(e.ops[0], (ast.Eq, ast.NotEq)):
+                b, tb = self.expr(e.comparators[0], env)
                 if ta == tb == "S":
                     t = f"(String.eqb {a} {b})"
                 elif ta == tb == "N":
@@ -246,6 +284,10 @@ class Tr:
                 else:
                     fail(e, f"== between {ta} and {tb}")
                 return f"(negb {t})" if neg else t
+            if isinstance(e.ops[0], (ast.In, ast.NotIn)) and isinstance(e.comparators[0], (ast.Set, ast.Tuple, ast.List)) and ta == "S" \
+                    and all(isinstance(x, ast.Constant) and isinstance(x.value, str) for x in e.comparators[0].elts):
+                t = f"(existsb (String.eqb {a}) [{'; '.join(cstr(x.value) for x in e.comparators[0].elts)}])"
+                return f"(negb {t})" if isinstance(e.ops[0], ast.NotIn) else t
             fail(e, "comparison operator")
         t, ty = self.expr(e, env)
         if ty == "B":
@@ -282,17 +324,25 @@ class Tr:
             env2[st.targets[0].id] = (v, ty)
             return f"(let {v} := {t} in {self.block(tail, env2, rest)})"
         if isinstance(st, (ast.If, ast.Match)):
-            after = self.block(tail, env, rest)
             early = any(isinstance(x, ast.Return) for x in ast.walk(st))
-            k = after if early else "[]"          # without an early return the statement's messages are simply followed by the rest
+            binds = any(isinstance(x, ast.Assign) for x in ast.walk(st))
+            if early or binds:
+                # what follows the statement runs inside each branch (with the names that branch has bound)
+                if isinstance(st, ast.If):
+                    return self.if_(st.test, st.body + tail, st.orelse + tail, env, rest)
+                subj, ty = self.expr(st.subject, env)
+                if ty != "E":
+                    fail(st, "match on a non-expression")
+                return self.cases(subj, st.cases, env, rest, tail)
+            after = self.block(tail, env, rest)
             if isinstance(st, ast.If):
-                t = self.if_(st.test, st.body, st.orelse, env, k)
+                t = self.if_(st.test, st.body, st.orelse, env, "[]")
             else:
                 subj, ty = self.expr(st.subject, env)
                 if ty != "E":
                     fail(st, "match on a non-expression")
-                t = self.cases(subj, st.cases, env, k)
-            return t if early or after == "[]" else f"({t} ++ {after})"
+                t = self.cases(subj, st.cases, env, "[]", [])
+            return t if after == "[]" else f"({t} ++ {after})"
         fail(st, "unrecognised statement")
 
     def if_(self, test, body, orelse, env: dict, after: str) -> str:
@@ -324,11 +374,12 @@ class Tr:
             return f"(if ({c}) then {inner} else {else_t})"
         return inner
 
-    def cases(self, subj: str, cases: list, env: dict, after: str) -> str:
+    def cases(self, subj: str, cases: list, env: dict, after: str, tail: list) -> str:
+        """tail: statements that follow the match statement (run after whichever case body was taken, or after none)"""
         if not cases:
-            return after
+            return self.block(tail, env, after)
         c, more = cases[0], cases[1:]
-        rest = self.cases(subj, more, env, after)
+        rest = self.cases(subj, more, env, after, tail)
         env2 = dict(env)
         p = self.pat(c.pattern, "E", env2)
         # `A() | B() as v` then `v.items`: bind the common field through an or-pattern
@@ -339,9 +390,9 @@ class Tr:
                 p = p.replace(f"((EList _) | (ETuple _) | (ESet _)) as {name}", f"((EList {fld}) | (ETuple {fld}) | (ESet {fld})) as {name}")
                 env2[f"{name}.items"] = (fld, "LE")
         if c.guard is not None:
-            body = self.guarded(c.guard, c.body, env2, after, rest)      # a failed guard falls through to the remaining cases
+            body = self.guarded(c.guard, c.body + tail, env2, after, rest)      # a failed guard falls through to the remaining cases
         else:
-            body = self.block(c.body, env2, after)
+            body = self.block(c.body + tail, env2, after)
         return f"(match {subj} with {p} => {body} | _ => {rest} end)"
 
     def guarded(self, guard, body, env: dict, after: str, rest: str) -> str:
@@ -370,3 +421,7 @@ def translate_check(path: Path, code: int, default_msg: str | None) -> str:
     else:
         raise TranslateError(f"matchers: {path.name}: node annotated {ann}")
     return f"Definition check_{code} (node : expr) : list template :=\n  {term}.\n"
+
+
+def uses_type_oracle(text: str) -> bool:
+    return "type_is " in text
